@@ -6,7 +6,7 @@ CXX_SOURCES = ['libs/acn/CID.cpp', 'libs/acn/CIDImpl.cpp']
 # Coq models of libc / libuuid (Libc.v) against the platform's functions: a mismatch there means
 # the libc model is wrong, not that OLA violates the property.
 SPEC_KEYS = ['ok', 'v', 'pok', 'pv', 't', 'p', 's', 'rt', 'd', 'back', 'a', 'eq', 'nil', 'wrap', 'n',
-             'pure', 'mis', 'cnt', 'exc']
+             'pure', 'mis', 'cnt', 'exc', 'ep', 'od']
 INTERNAL_KEYS = []
 
 RULE = ('every value -> text -> value for ALL 8-bit and ALL 16-bit values (both tiers) of every '
@@ -34,29 +34,60 @@ TRUSTED = ['modelled rather than verified: StringUtils.cpp StringSplit/StringTri
            'StringToInt x8/HexStringToInt x8/PrefixedHexStringToInt, strings/Format IntToString/ToHex, '
            'UID::FromString/ToString, MACAddress StringToEther/ToString, IPV4Address::FromString/ToString, '
            'IPV4SocketAddress::FromString/ToString, DmxBuffer::SetFromString/ToString, CIDImpl::FromString/ToString',
-           'libc strtoull/strtoll/atoi and ostream integer formatting are ordinary Coq definitions (Libc.v) '
-           'validated against the platform on every run; inet_pton/inet_ntop/uuid_parse/uuid_unparse enter the '
-           'IPv4 / socket address / CID theorems as Section variables with named hypotheses',
+           'libc strtoull/strtoll/atoi, ostream integer formatting, inet_pton/inet_ntop (AF_INET, AF_INET6) and '
+           'uuid_parse/uuid_unparse are ordinary Coq definitions (Libc.v, Ipv6.v) validated against the platform on '
+           'every run; the older IPv4 / socket address / CID theorems additionally hold for ANY such functions under named hypotheses',
+           'public entry points enumerated from the headers and compared on every case: StringToInt + StringToIntOrDefault (x8), '
+           'HexStringToInt + PrefixedHexStringToInt (x8), StringToBool(Tolerant), UID::FromString, MACAddress::FromString x2 + '
+           'FromStringOrDie, IPV4Address/IPV6Address::FromString x2 + FromStringOrDie, IPV4SocketAddress::FromString + '
+           'FromStringOrDie, CID::FromString, DmxBuffer::SetFromString (keys ep, od)',
            'IPv6 text: inet_ntop/inet_pton(AF_INET6) are ordinary Coq definitions (Ipv6.v, glibc 2.36 inet_ntop6/inet_pton6), '
            'validated against the platform on boundary-biased addresses and malformed texts on every run (keys lt6, lraw)']
 
-LEVEL_TEXT = ('Coq theorems over an executable model of OLA\'s text conversions, for all texts and all values: '
-              'StringToInt (8 overloads, strict and lenient) and HexStringToInt (8 overloads) accept exactly the '
-              'texts of the documented grammar whose value is in range and return that value (value defined '
-              'positionally, independently of the scanner); IntToString/ToHex -> parser round-trips for every '
-              'value of every width; UID, MAC, DMX frame, socket address and CID round-trip for every value; '
-              'wrong field counts are rejected; StringToBool is characterised exactly. Partial: '
-              'DmxBuffer::SetFromString truncates out-of-range items (atoi + uint8_t) - proved only for items in '
-              '0..255 (c20_dmx_text_partial) with the violation recorded as c20_dmx_text_refuted / known finding; '
-              'IPv4/CID text itself is libc/libuuid behaviour taken as hypothesis; IPv6 text is modelled (glibc inet_ntop6/'
-              'inet_pton6) and proved to round-trip for every 128-bit address with length <= 39. The model is tied to the '
-              'C++ by a differential correspondence check on an ASan/UBSan build of the working tree.')
+LEVEL_TEXT = ('Coq theorems over an executable model of OLA\'s text conversions, for all texts and all values. '
+              'Exact acceptance (iff: accepted <=> the text has the documented form and denotes a value in range, '
+              'and then exactly that value is returned) for StringToInt x8 (strict and lenient), HexStringToInt x8, '
+              'StringToBool/StringToBoolTolerant (incl. embedded NUL), UID, MAC, IPv4 address and IPv4 socket address '
+              '(for any inet_pton, and without hypothesis for the validated glibc model, which is proved to accept '
+              'exactly the inet_ntop outputs), StringSplit; StringToIntOrDefault; value -> text -> value round trips for '
+              'EVERY value of every integer width (decimal and hex), UID, MAC, DMX frame, IPv4, socket address, IPv6 '
+              '(glibc model, length <= 39) and CID (libuuid model); wrong field counts rejected. Partial: '
+              'DmxBuffer::SetFromString never rejects - its result is characterised exactly for every text '
+              '(c20_dmx_text_exact) and equals the denoted slots only when every item is in 0..255 '
+              '(c20_dmx_text_partial / c20_dmx_text_refuted, known finding C20-dmx-atoi-truncation). Not proved: '
+              '"accepts => denotes" for the IPv6 and uuid_parse grammars (libc/libuuid models, correspondence only). '
+              'The model is tied to the C++ by a differential correspondence check on an ASan/UBSan build of the '
+              'working tree; constants used by the model are regenerated from the headers and pinned (c20_consts).')
 LEVEL_NOTE = ('Trusted: Coq kernel, extraction (ExtrOcamlBasic), OCaml/C++ glue, the generator\'s coverage of the '
               'correspondence (model = code is tested, not proved), the Libc.v models of strtoull/strtoll/atoi/'
               'ostream<< (validated against glibc on every run), and the stated hypotheses on inet_pton/inet_ntop/'
               'uuid_parse/uuid_unparse.')
 TECHNIQUE = 'Coq proof on hand-written executable model + extracted-model/implementation differential correspondence'
 DESIGN_REF = 'DESIGN.md §4 C20'
+
+
+def gen_consts(v):
+    """constants the model uses as literals, regenerated from the headers the code is compiled with"""
+    import os
+    ents = [('G_DMX_UNIVERSE_SIZE', 'ola::DMX_UNIVERSE_SIZE'),
+            ('G_MAC_LENGTH', 'ola::network::MACAddress::LENGTH'),
+            ('G_CID_LENGTH', 'ola::acn::CID::CID_LENGTH'),
+            ('G_IPV6_LENGTH', 'ola::network::IPV6Address::LENGTH'),
+            ('G_INET_ADDRSTRLEN', 'INET_ADDRSTRLEN'), ('G_INET6_ADDRSTRLEN', 'INET6_ADDRSTRLEN'),
+            ('G_UINT8_MAX', 'UINT8_MAX'), ('G_UINT16_MAX', 'UINT16_MAX'), ('G_UINT32_MAX', 'UINT32_MAX'),
+            ('G_UINT64_MAX', 'UINT64_MAX'), ('G_ULLONG_MAX', 'ULLONG_MAX'), ('G_LLONG_MAX', 'LLONG_MAX'),
+            ('G_INT8_MAX', 'INT8_MAX'), ('G_INT16_MAX', 'INT16_MAX'), ('G_INT32_MAX', 'INT32_MAX'),
+            ('G_INT64_MAX', 'INT64_MAX'),
+            ('G_NEG_INT8_MIN', '-(long long)INT8_MIN'), ('G_NEG_INT16_MIN', '-(long long)INT16_MIN'),
+            ('G_NEG_INT32_MIN', '-(long long)INT32_MIN'), ('G_NEG_INT64_MIN', '0ULL - (unsigned long long)INT64_MIN'),
+            ('G_SIZEOF_LONG', 'sizeof(long)'), ('G_SIZEOF_INT', 'sizeof(int)'),
+            ('G_HEX_BIT_WIDTH', 'ola::strings::HEX_BIT_WIDTH'),
+            ('G_DIGITS_U8', 'std::numeric_limits<uint8_t>::digits'), ('G_DIGITS_I8', 'std::numeric_limits<int8_t>::digits'),
+            ('G_DIGITS_U64', 'std::numeric_limits<uint64_t>::digits'), ('G_DIGITS_I64', 'std::numeric_limits<int64_t>::digits')]
+    return v.gen_consts_cpp(ID, ['ola/Constants.h', 'ola/network/MACAddress.h', 'ola/network/IPV6Address.h',
+                                 'ola/acn/CID.h', 'ola/strings/Format.h', 'arpa/inet.h', 'limits.h', 'limits'],
+                            ents, os.path.join(v.VERIF, 'props', ID, 'coq', 'Gen.v'),
+                            prelude='#define __STDC_LIMIT_MACROS\n#include <stdint.h>')
 
 
 def hx(s):
